@@ -19,7 +19,7 @@ from . import relchecks as rc
 from . import relreplay
 from . import relcase
 from .relcase import abs_table, same_table, spec_table
-from .rel_props import T1, T12, SIMT, UNARY, ASSUME_REL, has_op, nt_rows
+from .rel_props import T1, T12, SIMT, UNARY, ASSUME_REL, has_op, nt_rows, micro, MICRO_W2
 
 LAWS_ALL = ["DeclaredCols", "HistOK", "StepLaw"]
 
@@ -75,7 +75,7 @@ def generic_plan(prop, tier, plan, worker, replay=None, extra=None):
             continue
         what = m.pop("what")
         must = m.pop("must_violate", None)
-        res = rc.run_exec(tr, what, invariants=m.pop("invariants", LAWS_ALL), **m)
+        res = rc.run_exec(tr, what, invariants=m.pop("invariants", LAWS_ALL), allow_eval_error=bool(must), **m)
         if must:
             stats["deviation model %s violates" % m.get("bdev", "")] = res.violated or "nothing"
             if res.violated not in must:
@@ -312,11 +312,14 @@ PLAN_C06 = {
         dict(what="BuilderMeaning: all 2-call sequences incl. windowed extends and limits, <= 2 rows",
              fams=["extend", "wextend", "cols", "order"], rows=2, steps=2, level=1, invariants=BUILDER_LAWS, timeout=900,
              tier=("thorough",), **TB),
+        dict(what="BuilderMeaning: two consecutive windowed extends over two-column orderings in both priorities, <= 2 rows",
+             fams=["wo2"], rows=2, steps=2, level=0, invariants=BUILDER_LAWS, tabcols="MCB_TabCols", colvals="MCW_ColVals", timeout=300),
         dict(what="deviation model: merge with a re-assigned column ignoring the other assignments (D1) must break BuilderMeaning",
              fams=["extend2"], rows=1, steps=2, level=1, invariants=BUILDER_LAWS, bdev="BDevMergeCommon",
              must_violate=("BuilderMeaning",), **TB),
     ],
     "emit": [
+        MICRO_W2, micro(2, 10),
         dict(what="all 2-call sequences of extend / 2-assignment extend / select / drop / order_rows, <= 1 row (sampled)",
              fams=["extend", "extend2", "cols", "order"], rows=1, steps=2, level=1, one_in=40, genbad=True, timeout=200, **TB),
         dict(what="all 3-call sequences of 2-assignment extends and order_rows, <= 1 row (sampled)",
@@ -394,6 +397,7 @@ def w_c10(args):
     if not base:
         return {"status": "skip", "stats": dict(stats)}
     nontrivial = False
+    known_hit = None
     for t in sorted(used):
         cols = case["inp"][t]["cols"]
         for c in cols:
@@ -411,9 +415,16 @@ def w_c10(args):
                             be.load_sqlite(case, frames=pf)
                             got = abs_table(be.sqlite.read_query(ops))
                     except Exception as ex:  # noqa: BLE001
+                        err = "%s: %s" % (type(ex).__name__, str(ex)[:300])
+                        if b == "pandas" and mode == "null" and kinds[c] == "s" and re.search(C10_TYPEGUARD, err, re.S):
+                            # the unreported column does influence the outcome - through the known type-guard defect
+                            # (a text column whose cells are all null is taken for float): known finding, not a new one
+                            known_hit = "pandas_null_only_text_column_type"
+                            stats["KF:" + known_hit] += 1
+                            continue
                         return {"status": "violation", "nontrivial": True, "tag": "raise:" + b,
                                 "detail": {"table": t, "column": c, "mode": mode, "backend": b, "reported": {k: sorted(v) for k, v in used.items()},
-                                           "error": "%s: %s" % (type(ex).__name__, str(ex)[:300])}}
+                                           "error": err}}
                     ok, why = same_table(got, base[b], ordered=ordered)
                     stats["perturbations"] += 1
                     if not ok:
@@ -452,10 +463,12 @@ def w_c10(args):
                         "detail": {"why": why, "reported": {k: sorted(v) for k, v in used.items()}, "got": got, "base": base["pandas"]}}
         else:
             stats["narrowed_rebuild_not_possible"] += 1
-    # leave the shared connection with the original tables
+    if known_hit:
+        return {"status": "known", "id": known_hit, "nontrivial": nontrivial, "stats": dict(stats)}
     return {"status": "ok", "nontrivial": nontrivial, "stats": dict(stats)}
 
 
+C10_TYPEGUARD = r"can't compare <class 'float'> to <class 'str'>|incompatible column types"
 IRR = ["HistOK", "Irrelevance"]
 PLAN_C10 = {
     "mc": [
@@ -899,6 +912,7 @@ PLAN_C07 = {
              invariants=BUILDER_LAWS, timeout=200, **TB),
     ],
     "emit": [
+        MICRO_W2, micro(2, 10),
         dict(what="all 2-call unary pipelines, one table, <= 1 row (sampled)", fams=UNARY, rows=1, steps=2, level=1, one_in=150, timeout=600, **TB),
     ],
     "sim": dict(what="random pipelines of 4 calls over 2 tables of <= 3 rows", num=(2000, 20000), rows=3, steps=4, **SIMT),
@@ -1025,7 +1039,8 @@ def w_c04(args):
 PLAN_C04 = {
     "mc": [dict(what="laws of the reference, 2-call pipelines with shared sub-pipelines (dup) and joins, <= 1 row",
                 fams=["stack", "binary"], rows=1, steps=2, level=1, **T12)],
-    "emit": [dict(what="fork / merge / re-join shapes over the micro alphabet: every 6-call behaviour that re-uses a sub-pipeline "
+    "emit": [micro(2, 30),
+             dict(what="fork / merge / re-join shapes over the micro alphabet: every 6-call behaviour that re-uses a sub-pipeline "
                        "(extend z=o+1 | x=x+1, windowed w=sum(y) | w=_size() by o, dup, swap, concat | inner join), <= 1 row",
                   fams=["extend", "wextend", "stack", "binary"], rows=1, steps=6, level=0, one_in=4, emitsel="fork", timeout=600, **TB),
              dict(what="all 2-call extend / windowed extend sequences, <= 1 row (sampled)", fams=["extend", "extend2", "wextend"], rows=1,
